@@ -235,7 +235,7 @@ def _finish_fn(item, sig, body, sig_line, body_line, qual, impl_header, relfile,
             hdr = body[lp['start']:lp['header_end']]
             m = re.match(r'for\s+(.+?)\s+in\s+', hdr, re.S)
             if not m:
-                raise ExtractError('fn %s loop #%d is not a for loop' % (name, n))
+                raise NeedsStub('loop #%d is no longer a for loop: the contract file has an iterator invariant for it' % n)
             inserts.append((lp['start'] + m.end(), 0, [Seg('%s: ' % lspec['iter'], ('spec', pfx + ':iter'))]))
     for h in item.get('hints', []):
         anchor, label, text = h[0], h[1], h[2]
@@ -533,6 +533,14 @@ def find_pure_helper(unit, name, repo=None):
                 ob = im.end() - 1
                 if ob < fn['sig_start'] <= rustsrc.match_close(stripped, ob):
                     impl = '^' + re.escape(re.sub(r'\s+', ' ', im.group(0)[:-1]).strip()) + '$'
+            in_trait = False
+            for tm in re.finditer(r'(?m)^(?:pub\s+)?trait\b[^{;]*\{', stripped):
+                ob = tm.end() - 1
+                if ob < fn['sig_start'] <= rustsrc.match_close(stripped, ob):
+                    in_trait = True
+            if in_trait or (impl is None and re.search(r'\(\s*&?\s*self\b', sig)):
+                # provided trait methods and anything with a receiver outside an inherent impl cannot be pulled in on their own
+                continue
             d = dict(kind='fn', file=f, name=name, label='helper::%s' % name, rules=list(RL.R5), ret='r', auto_helper=True,
                      ensures=[('is_its_body', [], 'r == (%s)' % spec)])
             if impl:
